@@ -471,6 +471,10 @@ def shards(tier):
     else:
         for i in range(6):
             sh.append({"kind": "msgs", "names": None, "n": 350})
+    # one converter object serves every message of a connection: message types that share a number (in different frequency classes)
+    # one after the other through the same object
+    sh.append({"kind": "same_number", "n": 1500 if th else 160})
+    sh.append({"kind": "same_number", "n": 1500 if th else 160})
     quat = [n for n in gt.ALL_NAMES if any(v.type == T.MVT_LLQuaternion for b in gt.TEMPLATES[n].blocks for v in b.variables)]
     sh.append({"kind": "msgs", "names": quat, "n": 400 if th else 60})
     for tz in ("UTC", "America/New_York", "Australia/Lord_Howe"):
@@ -479,7 +483,42 @@ def shards(tier):
     return sh
 
 
+def _same_number_groups():
+    groups = {}
+    for n in gt.ALL_NAMES:
+        groups.setdefault(getattr(gt.TEMPLATES[n], "num", None), []).append(n)
+    return [sorted(v) for k, v in sorted(groups.items(), key=lambda kv: str(kv[0])) if len(v) > 1]
+
+
+def same_number_laws(pair_case):
+    global LSER
+    saved = LSER
+    LSER = LLSDMessageSerializer()      # a converter that has seen nothing yet, then the two messages in this order
+    try:
+        out = []
+        for c in pair_case["cases"]:
+            out.extend(msg_laws(_strip_cr(c)))
+        return [("same-number:" + s, m) for s, m in out]
+    finally:
+        LSER = saved
+
+
 def run_shard(ctx, shard):
+    if shard["kind"] == "same_number":
+        groups = _same_number_groups()
+
+        @st.composite
+        def strat(draw):
+            g = draw(st.sampled_from(groups))
+            a, b = draw(st.permutations(g))[:2]
+            return {"same_number": [a, b], "cases": [draw(gt.message_case(names=[n], finite=True, xml_safe=True, with_header=False, omit_trailing=False))
+                                                       for n in (a, b)]}
+
+        def body(pc):
+            ctx.case(pc, nontrivial=True, classes=["same_number_pairs"])
+            return same_number_laws(pc)
+        hyp_run(ctx, strat(), body, shard["n"])
+        return
     if shard["kind"] == "msgs":
         strat = gt.message_case(names=shard["names"], finite=True, xml_safe=True, with_header=False, omit_trailing=False)
 
@@ -507,6 +546,8 @@ def run_shard(ctx, shard):
 
 
 def replay(ctx, case):
+    if isinstance(case, dict) and "same_number" in case:
+        return same_number_laws(case)
     if isinstance(case, dict) and "blocks" in case:
         return msg_laws(_strip_cr(case)) + inject_law(case)
     res = []
